@@ -7,7 +7,7 @@
    C02 (Model/FIT.v).  F: any field with 1+1 <> 0. *)
 From Coq Require Import ZArith Bool Field.
 From V Require Import Base.Loops Base.Arr Base.FieldSig.
-From V Require Import Gen.CoreBand Gen.CoreGS Model.FIT Proofs.BandSums Proofs.BandLDL Proofs.GSBlock.
+From V Require Import Gen.CoreBand Gen.CoreGS Model.FIT Proofs.BandSums Proofs.BandLDL Proofs.GSBlock Proofs.GSSweep.
 Local Open Scope Z_scope.
 
 Section C03.
@@ -96,6 +96,49 @@ Section C03.
   Proof. exact (gs_block_frame ex ey ez r ix iy iz i j k). Qed.
 End C03.
 
+(* --- the whole point-wise smoother: every nu, every shape ------------------ *)
+Section C03sweep.
+  Context {F : Type} {O : FOps F}.
+  Hypothesis Fth : field_theory F0 F1 Fadd Fmul Fsub Fopp Fdiv Finv (@eq F).
+  Hypothesis two_nz : (1 + 1)%F <> 0%F.
+  Variables (ex ey ez sx sy sz eta_x eta_y eta_z zeta : Z -> Z -> Z -> F).
+  Variables (hx hy hz : Z -> F).
+  Hypothesis hx_nz : forall i, hx i <> 0%F.
+  Hypothesis hy_nz : forall i, hy i <> 0%F.
+  Hypothesis hz_nz : forall i, hz i <> 0%F.
+  Variables (nu nx ny nz : Z).
+  Hypothesis Hnx : 0 <= nx.
+  Hypothesis Hny : 0 <= ny.
+  Hypothesis Hnz : 0 <= nz.
+
+  (* A field whose six block equations hold at every interior node (i.e. which
+     solves A e = s on all interior edges) is returned unchanged by
+     [gauss_seidel], forward and backward sweeps alike, for every nu -- provided
+     no block pivot vanishes. *)
+  Theorem point_smoother_leaves_exact_solution_unchanged :
+    (forall ix iy iz, interior nx ny nz ix iy iz -> forall k, 0 <= k < 6 ->
+       edge_res ex ey ez sx sy sz eta_x eta_y eta_z zeta hx hy hz (cur ex ey ez ix iy iz) ix iy iz k = 0%F) ->
+    (forall ix iy iz, interior nx ny nz ix iy iz -> forall j, 0 <= j < 6 ->
+       pivot 6 (fst (gs_sys ex ey ez sx sy sz eta_x eta_y eta_z zeta hx hy hz nu nx nx ny ny nz nz
+                            (fun _ => 0%F) ix iy iz)) j <> 0%F) ->
+    let r := gauss_seidel nx ny nz ex ey ez sx sy sz eta_x eta_y eta_z zeta hx hy hz nu in
+    forall i j l, fst (fst r) i j l = ex i j l /\ snd (fst r) i j l = ey i j l /\ snd r i j l = ez i j l.
+  Proof.
+    intros Hex Hpiv.
+    exact (gauss_seidel_fixed_point Fth two_nz ex ey ez sx sy sz eta_x eta_y eta_z zeta hx hy hz
+             hx_nz hy_nz hz_nz nu nx ny nz Hex Hpiv).
+  Qed.
+
+  (* Tangential boundary values (everything outside the interior edges) are
+     never written, for any field, any source and any number of sweeps. *)
+  Theorem point_smoother_never_writes_boundary :
+    let r := gauss_seidel nx ny nz ex ey ez sx sy sz eta_x eta_y eta_z zeta hx hy hz nu in
+    (forall i j l, (j <= 0 \/ ny <= j \/ l <= 0 \/ nz <= l) -> fst (fst r) i j l = ex i j l) /\
+    (forall i j l, (i <= 0 \/ nx <= i \/ l <= 0 \/ nz <= l) -> snd (fst r) i j l = ey i j l) /\
+    (forall i j l, (i <= 0 \/ nx <= i \/ j <= 0 \/ ny <= j) -> snd r i j l = ez i j l).
+  Proof. exact (gauss_seidel_frame ex ey ez sx sy sz eta_x eta_y eta_z zeta hx hy hz nu nx ny nz). Qed.
+End C03sweep.
+
 Print Assumptions solve_correct_banded.
 Print Assumptions solve_unique_banded.
 Print Assumptions solve_is_linear_in_rhs.
@@ -104,3 +147,5 @@ Print Assumptions gs_block_is_the_residual_system.
 Print Assumptions gs_block_equations_hold_afterwards.
 Print Assumptions gs_exact_solution_is_fixed_point.
 Print Assumptions gs_block_writes_only_its_six_edges.
+Print Assumptions point_smoother_leaves_exact_solution_unchanged.
+Print Assumptions point_smoother_never_writes_boundary.
